@@ -112,6 +112,16 @@ Fixpoint parse_ops (fuel : nat) (T : template) (t : toks) : option (list op) :=
                               end
             | None => None
             end
+          else if String.eqb kw "recr" || String.eqb kw "msgr" then
+            (* the same record with its elements in the reverse order (a node whose template
+               lists the elements differently): lookups are by name, the order must not matter *)
+            match parse_Ntok r with
+            | Some (k, r1) => match parse_vals T r1 with
+                              | Some (rec, r2) => option_map (cons (ORec k (rev rec))) (parse_ops fuel' T r2)
+                              | None => None
+                              end
+            | None => None
+            end
           else if String.eqb kw "adv" then
             match parse_Ztok r with
             | Some (d, r1) => option_map (cons (OAdv d)) (parse_ops fuel' T r1)
@@ -139,9 +149,14 @@ Definition parse_flow (T : template) (t : toks) : option ((key * flow) * toks) :
         | Some (fl, r3) =>
           match parse_booltok r3 with
           | Some (v4, r4) =>
-            match parse_vals T r4 with
-            | Some (rec, r5) => Some ((k, mkFlow ready n fl v4 rec), r5)
-            | None => None
+            match r4 with
+            | orient :: r4' =>
+              match parse_vals T r4' with
+              | Some (rec, r5) =>
+                  Some ((k, mkFlow ready n fl v4 (if String.eqb orient "R" then rev rec else rec)), r5)
+              | None => None
+              end
+            | [] => None
             end
           | None => None
           end
@@ -245,10 +260,20 @@ Definition sort_by_key {V} (l : list (N * V)) : list (N * V) := fold_right inser
 Definition show_field_of (r : record) (nd : string * dtype) : string :=
   match get (fst nd) r with Some f => " " ++ show_fval (fd_val f) | None => " missing" end.
 
+(* N = the stored record lists its elements in the template's order, R = in the reverse order
+   (told apart by the first element's name; N when that is not possible) *)
+Definition orientation (T : template) (r : record) : string :=
+  match r, T, rev T with
+  | f :: _, t0 :: _ :: _, tl :: _ =>
+      if String.eqb (fd_name f) (fst tl) && negb (String.eqb (fd_name f) (fst t0)) then "R" else "N"
+  | _, _, _ => "N"
+  end.
+
 Definition show_flow (T : template) (e : key * flow) : string :=
   let f := snd e in
   " " ++ show_N (fst e) ++ " " ++ show_bool (f_ready f) ++ " " ++ show_Z (f_retries f) ++ " " ++
-  show_bool (f_filled f) ++ " " ++ show_bool (f_v4 f) ++ String.concat "" (map (show_field_of (f_rec f)) T).
+  show_bool (f_filled f) ++ " " ++ show_bool (f_v4 f) ++ " " ++ orientation T (f_rec f) ++
+  String.concat "" (map (show_field_of (f_rec f)) T).
 
 Definition show_item (it : item) : string :=
   " " ++ show_N (fst it) ++ " " ++ show_Z (it_active it) ++ " " ++ show_Z (it_inactive it).
